@@ -130,10 +130,37 @@ class Rig:
 
     def add_service(self, acc, spec: dict, number: bool = True):
         """`acc.add_preload_service(name, chars=optional names)` with a fresh service."""
-        opt = list(spec.get("opt") or [])
-        svc = acc.add_preload_service(spec["svc"], chars=opt if opt else None)
+        if "raw" in spec:
+            svc = self.raw_service(spec)
+            acc.add_service(svc)
+        else:
+            opt = list(spec.get("opt") or [])
+            svc = acc.add_preload_service(spec["svc"], chars=opt if opt else None)
         if number:
             self.number_service(svc)
+        return svc
+
+    def raw_service(self, spec: dict):
+        """A service assembled by hand: `Service(uuid)`, then one `add_characteristic(*chars)` call per
+        entry of spec["calls"] with fresh characteristics from the loader.  With spec["sameObject"] a
+        repeated name passes the object created for its first occurrence again, otherwise every
+        occurrence is a fresh object of that type."""
+        from uuid import UUID
+
+        from pyhap.service import Service
+
+        svc = Service(UUID(spec["raw"]), "Custom")
+        first = {}
+        for call in spec.get("calls") or [spec["charNames"]]:
+            objs = []
+            for name in call:
+                if spec.get("sameObject") and name in first:
+                    objs.append(first[name])
+                else:
+                    c = self.driver.loader.get_char(name)
+                    first.setdefault(name, c)
+                    objs.append(c)
+            svc.add_characteristic(*objs)
         return svc
 
     def new_accessory(self, aid: Optional[int], specs: List[dict], cat_bridge: bool = False):
@@ -192,6 +219,25 @@ def spec_pool(loader) -> List[dict]:
         {"svc": name, "optional": list(d.get("OptionalCharacteristics", []))}
         for name, d in loader.serv_types.items()
     ]
+
+
+def random_raw_spec(rng, pool, loader) -> dict:
+    """A hand-assembled service whose add_characteristic calls repeat a type (within one call and/or
+    in a later call)."""
+    names = rng.sample(list(loader.char_types), rng.choice([2, 3, 4]))
+    calls = [list(names)]
+    x = rng.random()
+    dup = rng.choice(names)
+    if x < 0.45:
+        calls[0].insert(rng.randrange(1, len(calls[0]) + 1), dup)  # twice in one call
+    elif x < 0.7:
+        calls.append([dup, rng.choice(list(loader.char_types))])  # again in a later call
+    elif x < 0.9:
+        calls[0].append(dup)
+        calls.append([rng.choice(names)])
+    flat = [n for call in calls for n in call]
+    return {"raw": loader.serv_types[rng.choice(pool)["svc"]]["UUID"], "charNames": flat, "calls": calls,
+            "sameObject": rng.random() < 0.4}
 
 
 def random_spec(rng, pool) -> dict:
